@@ -62,8 +62,18 @@ type c06Case struct {
 	Hex   string `json:"input_hex"`
 }
 
-// c06Judge runs one string through the real parser and the reference.
+// c06Judge runs one string through the real parser and the reference; a panic anywhere in the code under
+// test (parsing or rendering) is a finding, not a crash of the check.
 func c06Judge(p *route.Parser, s string) (bad, kind, class string) {
+	defer func() {
+		if pv := recover(); pv != nil {
+			bad, kind, class = fmt.Sprintf("rendering the parsed route panicked: %v", pv), "panic/rendering", ""
+		}
+	}()
+	return c06JudgeInner(p, s)
+}
+
+func c06JudgeInner(p *route.Parser, s string) (bad, kind, class string) {
 	var ast *route.Route
 	var err error
 	var pan interface{}
@@ -122,6 +132,17 @@ func c06Judge(p *route.Parser, s string) (bad, kind, class string) {
 		}
 		if ast.String() != canon {
 			return fmt.Sprintf("canonical rendering %q is not the input with spacing normalised (%q)", ast.String(), canon), "canonical-differs", ""
+		}
+	}
+	// the segments render the route piecewise (the tree compares and reports them one by one)
+	{
+		whole := ast.String()
+		var parts strings.Builder
+		for _, seg := range ast.Segments {
+			parts.WriteString(seg.String())
+		}
+		if parts.String() != whole {
+			return fmt.Sprintf("the renderings of the segments, joined, give %q; the route renders as %q", parts.String(), whole), "segments-do-not-add-up", ""
 		}
 	}
 	// fix-point (also on undetermined-but-accepted strings)
